@@ -10,7 +10,7 @@ from .model import (
     sum_gradient,
     sum_hessian,
 )
-from .opt_int import build_amp, sum_gradient_data2
+from .opt_int import _IdCache, build_amp, sum_gradient_data2
 
 set_function, get_function, register_function = create_config()
 
@@ -215,12 +215,12 @@ class Model_cfit_cached(Model_cfit):
     def __init__(self, amp, w_bkg=0.001, bg_f=None, eff_f=None):
         super().__init__(amp, w_bkg, bg_f, eff_f)
         self.cached_amp = build_amp.build_amp2s(amp.decay_group)
-        self.cached_data = {}
+        self.cached_data = _IdCache()
 
     def nll_grad_batch(self, data, mcdata, weight, mc_weight):
         var = self.vm.trainable_variables
-        data_id = id(data)
-        mc_id = id(mcdata)
+        data_id = self.cached_data.key(data)
+        mc_id = self.cached_data.key(mcdata)
         mcdata = list(mcdata)
         mc_weight = list(mc_weight)
 
